@@ -448,7 +448,7 @@ func Prop() *core.Prop {
 		},
 		Cases: func(tier string) int {
 			if tier == "thorough" {
-				return 3000000
+				return 15000000
 			}
 			return 60000
 		},
